@@ -135,6 +135,14 @@ def replay(beh, flavour, clauses=None):
             if exp["tags"] != rt.NOTAGS and obs["tags"] != sorted(exp["tags"]):
                 out.append(dict(clause="c17_scoped", step=step, node=i, expected=sorted(exp["tags"]), observed=obs["tags"], startless=startless,
                                 run=sum(1 for x in hist[: step + 1] if x["c"]["op"] == "startTestRun")))
+            if obs["cnt"] != list(exp["cnt"]):
+                out.append(dict(clause="c04_verdict", step=step, node=i, expected=list(exp["cnt"]), observed=obs["cnt"]))
+            if nd.k == "Text" and c["op"] == "stopTestRun":
+                # the written summary agrees with the model's counters: test count, OK/FAILED, total, one section per problem
+                got_txt = rt.parse_text_summary(nd.obj.text.getvalue())
+                exp_txt = rt.expected_text_summary(exp["run"], exp["cnt"], exp["ok"])
+                if got_txt != exp_txt:
+                    out.append(dict(clause="c04_text", step=step, node=i, expected=exp_txt, observed=got_txt))
             if exp["run"] != 99 and obs["run"] != exp["run"]:
                 out.append(dict(clause="c04_testsrun" if st.own_tree(i) else "drift_run", step=step, node=i, expected=exp["run"], observed=obs["run"]))
         # 2. what the innermost results received during this call
@@ -237,6 +245,9 @@ def signature(beh, flavour, d):
         u = under(st, i)
         at = "wrapped" if u != "-" and not st.nodes[i]["ch"] else IMPL.get(kind, kind)
         return "%s:%s:at=%s:under=%s:%s:%s->%s" % (cl, callclass, at, u, how, d["expected"], obs)
+    if cl == "c04_text":
+        diff = sorted(k for k in d["expected"] if d["expected"][k] != obs.get(k))
+        return "%s:at=%s:under=%s:%s" % (cl, IMPL.get(kind, kind), under(st, i), "+".join(diff))
     if cl in ("c04_verdict", "c04_testsrun"):
         run = sum(1 for x in hist[: d["step"] + 1] if x["c"]["op"] == "startTestRun")
         return "%s:%s:at=%s:under=%s:run%d:%s->%s" % (cl, callclass, IMPL.get(kind, kind), under(st, i), min(run, 2), d["expected"], obs)
@@ -282,7 +293,10 @@ def in_domain(pid, beh, d):
         return not startless and not beh["preff"] and not any(c["op"] in ("setff", "stop") for c in ops)
     if pid == "C04":
         return not startless
-    return True
+    # C17 states predicates about tags: an exception counts when it comes out of the tag machinery (or the tag context
+    # has been lost); anything else (e.g. TestByTestResult.stopTest needing the start time of a test that was never
+    # started) is outside what C17 says and is printed as DRIFT
+    return bool(d.get("nulled")) or d.get("where") in ("current_tags", "tags", "get_current_tags", "change_tags", "_merge_tags")
 
 
 def nontrivial(beh):
@@ -308,6 +322,7 @@ def report_divergences(rep, pid, beh, flavour, divs, cfg):
             continue
         if cl == "raised":
             if not in_domain(pid, beh, d):
+                rep.note_drift("exception outside the domain of %s: %s in %s after %s" % (pid, d["observed"], d["where"], abstract(beh)["calls"][: d["step"] + 1]))
                 continue
             cl = pid.lower() + "_raised"
         if cl not in CLAUSES[pid]:
@@ -317,7 +332,7 @@ def report_divergences(rep, pid, beh, flavour, divs, cfg):
                       expected=d["expected"], observed=d["observed"])
 
 
-def run_cfg(rep, pid, cfg, flavours, **kw):
+def run_cfg(rep, pid, cfg, flavours, keep=None, **kw):
     kw.setdefault("workers", 8)
     r = tlc.run_tlc("results", "MCResults", cfg, coverage=True, timeout=3000, **kw)
     tlc.require_ok(r, "%s %s" % (pid, cfg))
@@ -325,6 +340,8 @@ def run_cfg(rep, pid, cfg, flavours, **kw):
     n = 0
     for beh in tlc.exported(r):
         n += 1
+        if keep is not None:
+            keep(cfg, beh)
         nk = jdump(abstract(beh)) if nontrivial(beh) else None
         for fl in flavours(n):
             divs, _ = replay(beh, fl, CLAUSES[pid])
@@ -334,6 +351,103 @@ def run_cfg(rep, pid, cfg, flavours, **kw):
             if divs:
                 report_divergences(rep, pid, beh, fl, divs, cfg)
     return r, n
+
+
+def c04_real_tests(rep, kept, tier):
+    """exit status of testtools.run and suites of real TestCases against what the model says (see results_run.py)"""
+    from . import results_rt as rt
+    from . import results_run as rr
+
+    # 1. testtools.run: TextTestResult created by TestToolsTestRunner, failfast from the command line
+    index = {}
+    for cfg, beh in kept:
+        if beh["stack"]["name"] == "Text" and not any(h["c"]["op"] == "setff" for h in beh["hist"]):
+            index[(bool(beh["preff"]), tuple(rr.outcome_kinds(beh)))] = beh
+    nprog = nsub = 0
+    sub_budget = 4 if tier == "quick" else 24
+    for (ff, kinds), beh in sorted(index.items(), key=lambda kv: (kv[0][0], len(kv[0][1]), kv[0][1])):
+        n = rr.executed_prefix(beh) if ff else len(kinds)
+        model = index.get((ff, kinds[:n]))
+        if model is None:
+            continue
+        fo = rr.final_obs(model)
+        exp = dict(rt.expected_text_summary(fo["run"], fo["cnt"], fo["ok"]), exit=fo["ok"] == "F", started=list(range(1, n + 1)))
+        code, summ, started = rr.run_program(list(kinds), ff)
+        got = dict(summ, exit=bool(code) if code != "no-exit" else "no-exit", started=started)
+        nprog += 1
+        rep.case(nontrivial_key="prog" + jdump([ff, kinds]) if len(kinds) >= 2 else None,
+                 sample={"testtools.run": list(kinds), "failfast": ff, "expected": exp} if nprog == 40 else None)
+        rep.traces += 1
+        if got != exp:
+            diff = sorted(k for k in exp if exp[k] != got.get(k))
+            rep.violation("c04_exit", "c04_exit:in-process:ff=%s:%s" % (ff, "+".join(diff)), {"kinds": list(kinds), "failfast": ff, "mode": "in-process"},
+                          expected=exp, observed=got)
+        # a few as a real child process: the process exit status
+        if nsub < sub_budget and len(kinds) == 3 and (hash_of(kinds, ff) + rep.seed) % 7 == 0:
+            nsub += 1
+            rc, summ2, tail = rr.run_subprocess(list(kinds), ff)
+            exp2 = dict(rt.expected_text_summary(fo["run"], fo["cnt"], fo["ok"]), exit=1 if fo["ok"] == "F" else 0)
+            got2 = dict(summ2, exit=rc)
+            rep.traces += 1
+            if got2 != exp2:
+                diff = sorted(k for k in exp2 if exp2[k] != got2.get(k))
+                rep.violation("c04_exit", "c04_exit:subprocess:ff=%s:%s" % (ff, "+".join(diff)), {"kinds": list(kinds), "failfast": ff, "mode": "subprocess", "output": tail},
+                              expected=exp2, observed=got2)
+    # 2. a unittest.TestSuite of real tests stops dispatching after the first bad outcome when failfast is on
+    seen = set()
+    nsuite = 0
+    for cfg, beh in kept:
+        st = Stack(beh["stack"])
+        ops = [h["c"] for h in beh["hist"]]
+        first_test = next((j for j, c in enumerate(ops) if c["op"] == "startTest"), len(ops))
+        if any(c["op"] == "setff" for c in ops[first_test:]):
+            continue
+        ffs = tuple(c["b"] for c in ops if c["op"] == "setff")
+        if not beh["preff"] and not ffs:
+            continue
+        if beh["preff"] and "Multi" in st.kinds:
+            continue  # failfast preset under MultiTestResult: known finding of the per-call comparison
+        kinds = tuple(rr.outcome_kinds(beh))
+        key = (st.name, bool(beh["preff"]), ffs, kinds)
+        if key in seen or not kinds:
+            continue
+        seen.add(key)
+        n = rr.executed_prefix(beh)
+        # shouldStop the model shows once the suite has stopped dispatching
+        stops = [h["obs"][0]["stop"] for h in beh["hist"] if h["c"]["op"] == "stopTest"]
+        exp = {"started": list(range(1, n + 1)), "stop": stops[n - 1] if n else "F"}
+        try:
+            started, stop = rr.run_suite(beh)
+            got = {"started": started, "stop": rt.b2s(stop) if isinstance(stop, bool) else stop}
+        except Exception as ex:  # noqa
+            got = {"started": "raised", "stop": "%s: %s" % (type(ex).__name__, ex)}
+        if exp["stop"] == "na":
+            got["stop"] = "na"
+        nsuite += 1
+        rep.case(nontrivial_key="suite" + jdump(key) if len(kinds) >= 2 else None,
+                 sample={"suite over": st.name, "failfast": "preset" if beh["preff"] else list(ffs), "outcomes": list(kinds), "dispatched": n} if nsuite == 25 else None)
+        rep.traces += 1
+        if got != exp:
+            how = "preff" if beh["preff"] else "setff"
+            if got["started"] == "raised" and "has no attribute 'shouldStop'" in got["stop"] and "Multi" in st.kinds and "Tw" in st.kinds:
+                # the suite reads result.shouldStop: same defect as the per-call comparison finds on this stack
+                rep.violation("c04_stop_reaches", "c04_stop_reaches:at=MultiTestResult:raises:AttributeError",
+                              {"behaviour": beh, "tests": "tc", "cfg": cfg, "abstract": abstract(beh)}, expected=exp, observed=got)
+                continue
+            rel = "raised" if got["started"] == "raised" else "more" if len(got["started"]) > n else "fewer" if len(got["started"]) < n else "stopflag"
+            rep.violation("c04_suite", "c04_suite:top=%s:%s:%s" % (st.kinds[0], how, rel), {"behaviour": beh, "tests": "tc", "cfg": cfg, "abstract": abstract(beh)},
+                          expected=exp, observed=got)
+    rep.extra["testtools_run_programs"] = nprog
+    rep.extra["testtools_run_subprocesses"] = nsub
+    rep.extra["suites_of_real_tests"] = nsuite
+    if nprog == 0 or nsuite == 0:
+        raise tlc.MachineryError("C04: no testtools.run programs / suites were derived from the exported behaviours")
+
+
+def hash_of(kinds, ff):
+    import zlib
+
+    return zlib.crc32(jdump([list(kinds), ff]).encode())
 
 
 def run(tier, pid):
@@ -349,14 +463,24 @@ def run(tier, pid):
     )
     plan = PLANS[pid][tier]
     covered = set()
+    kept = []
+
+    def keep(cfg, beh):
+        from . import results_run as rr
+
+        if pid == "C04" and cfg.startswith("rs_exp") and rr.single_plain_run(beh):
+            kept.append((cfg, beh))
+
     for cfg, flav, kw in plan:
         kw = dict(kw)
         if "simulate" in kw:
             kw["seed"] = rep.seed + 1
-        r, n = run_cfg(rep, pid, cfg, flav, **kw)
+        r, n = run_cfg(rep, pid, cfg, flav, keep=keep, **kw)
         covered |= {a for a, v in r.coverage.items() if v[1] > 0}
         if flav is not NOREPLAY and n == 0:
             raise tlc.MachineryError("%s %s exported no behaviours" % (pid, cfg))
+    if pid == "C04":
+        c04_real_tests(rep, kept, tier)
     missing = [a for a in NEEDED[pid] if a not in covered]
     if missing:
         raise tlc.MachineryError("%s: actions never taken in any model run: %s" % (pid, missing))
@@ -385,7 +509,8 @@ def NOREPLAY(n):
 
 PLANS = {
     "C08": {"quick": [("rs_expA.cfg", all3, {})], "thorough": [("rs_expA.cfg", all3, {})]},
-    "C04": {"quick": [("rs_expC1.cfg", tc_only, {}), ("rs_expC2.cfg", tc_only, {}), ("rs_expC3.cfg", tc_only, {})],
+    "C04": {"quick": [("rs_expC1.cfg", tc_only, {}), ("rs_expC2.cfg", tc_only, {}), ("rs_expC3.cfg", tc_only, {}),
+                      ("rs_expP.cfg", tc_only, {})],
             "thorough": []},
     "C17": {"quick": [("rs_expT1.cfg", tc_ph, {}), ("rs_expT2.cfg", tc_ph, {}), ("rs_expT3.cfg", tc_ph, {})], "thorough": []},
 }
